@@ -618,7 +618,7 @@ def h2_part(ctx, rows, tz):
 def check(ctx):
     ok_gen = core.step_gen(ctx, GEN)
     prove = core.step_prove(ctx, MODS) if ok_gen else {'module': ' '.join(MODS), 'obligations': 0, 'discharged': 0}
-    ok_drv = core.step_drv(ctx) if ok_gen else False
+    ok_drv = core.step_drv(ctx) if (ok_gen or ctx.search_mode) else False
     ok_impl = core.step_build_impl(ctx, need_s4=True, need_harness=False)
     corr, orc = [], None
     if ok_impl and ok_drv:
